@@ -33,7 +33,8 @@ enum RK {
   X_ABS_MEM,        // x86: mov eax, [abs]   (32-bit: disp32; 64-bit: abs addressing or rip-relative chosen by AsmJit)
   X_ABS_JMP, X_ABS_CALL,    // jmp/call imm64 absolute target (rel32 or address table)
   X_MOVABS,         // mov rax, [abs64] (moffs)
-  R_ABS_B, R_ABS_BL // a64 b/bl to an absolute address
+  R_ABS_B, R_ABS_BL, // a64 b/bl to an absolute address
+  X_ABS_MEM_IMM8, X_ABS_MEM_IMM32   // x86: add dword [abs], imm8 / imm32 - the immediate follows the address field (RIP = end of the instruction)
 };
 
 struct LabelM { bool bound = false; uint32_t sec = 0; uint64_t off = 0; };
@@ -67,7 +68,7 @@ rc::Gen<vh::Case> vh_gen(const vh::Opts&) {
     else if (sel < 88) op = {3, *vh::irange<int>(0, 2)};
     else if (sel < 92) op = {4, *vh::irange<int>(0, 6)};
     else if (sel < 96) op = {5, *vh::irange<int>(0, 7), *vh::irange<int>(0, 7), *vh::irange<int>(0, 3)};
-    else op = {6, *vh::irange<int>(0, 7), *vh::irange<int>(0, 11), *vh::irange<int>(0, 6)};
+    else op = {6, *vh::irange<int>(0, 7), *vh::irange<int>(0, 11), *vh::irange<int>(0, 20)};
     return op;
   });
   // cfg[6]: 0 = layout by flatten() (75%), otherwise the user lays the sections out with Section::set_offset(): gaps around the range
@@ -110,16 +111,17 @@ static XDec xdecode(RK kind, const uint8_t* p, size_t n, int mode) {
       break;
     case X_JECXZ: if (op == 0xE3) rel(1, "jecxz rel8"); break;
     case X_LOOP: if (op == 0xE2) rel(1, "loop rel8"); break;
-    case X_LEA: case X_MEM_IMM8: case X_MEM_IMM32: case X_ABS_MEM: {
+    case X_LEA: case X_MEM_IMM8: case X_MEM_IMM32: case X_ABS_MEM: case X_ABS_MEM_IMM8: case X_ABS_MEM_IMM32: {
       // opcode then ModRM with mod=00 rm=101 (disp32: rip-relative in 64-bit mode, absolute in 32-bit mode) or SIB absolute (rm=100, base=101, index=100)
-      bool okop = (kind == X_LEA && op == 0x8D) || (kind == X_MEM_IMM8 && op == 0x83) || (kind == X_MEM_IMM32 && op == 0x81) || (kind == X_ABS_MEM && (op == 0x8B || op == 0xA1));
+      bool okop = (kind == X_LEA && op == 0x8D) || (kind == X_MEM_IMM8 && op == 0x83) || (kind == X_MEM_IMM32 && op == 0x81) || (kind == X_ABS_MEM && (op == 0x8B || op == 0xA1)) ||
+                  (kind == X_ABS_MEM_IMM8 && op == 0x83) || (kind == X_ABS_MEM_IMM32 && op == 0x81);
       if (!okop || i >= n) break;
       if (kind == X_ABS_MEM && op == 0xA1) { int asz = mode == 64 ? (p67 ? 4 : 8) : (p67 ? 2 : 4); if (i + size_t(asz) > n) break; d.moffs = true; d.abs64 = uint64_t(rd_le(p + i, asz, false)); d.disp_pos = i; d.disp_size = asz; i += size_t(asz); d.len = i; d.form = "moffs"; d.ok = true; break; }
       uint8_t modrm = p[i++];
       if ((modrm & 0xC7) == 0x05) { d.rip = mode == 64; d.abs32 = mode == 32; }
       else if ((modrm & 0xC7) == 0x04 && i < n && p[i] == 0x25) { i++; d.abs32 = true; }
       else break;
-      d.trailing = kind == X_MEM_IMM8 ? 1 : kind == X_MEM_IMM32 ? 4 : 0;
+      d.trailing = (kind == X_MEM_IMM8 || kind == X_ABS_MEM_IMM8) ? 1 : (kind == X_MEM_IMM32 || kind == X_ABS_MEM_IMM32) ? 4 : 0;
       if (i + 4 + size_t(d.trailing) > n) break;
       d.disp_pos = i; d.disp = rd_le(p + i, 4, true); d.disp_size = 4; i += 4 + size_t(d.trailing); d.len = i; d.form = d.rip ? "[rip+disp32]" : "[abs32]"; d.ok = true;
       if (d.abs32 && p67 && mode == 64) d.disp = int64_t(uint32_t(d.disp));   // address-size prefix: zero-extended 32-bit address
@@ -153,7 +155,7 @@ static ADec adecode(RK kind, uint32_t w) {
 
 static const char* rk_name(RK k) {
   static const char* n[] = {"jmp", "jmp short", "jcc", "jcc short", "call", "jecxz", "loop", "lea", "mem+imm8", "mem+imm32", "b", "bl", "b.cond", "cbz", "tbz", "adr", "ldr-literal",
-                            "embed_label", "embed_label_delta", "abs-mem", "abs-jmp", "abs-call", "movabs", "abs-b", "abs-bl"};
+                            "embed_label", "embed_label_delta", "abs-mem", "abs-jmp", "abs-call", "movabs", "abs-b", "abs-bl", "abs-mem+imm8", "abs-mem+imm32"};
   return n[int(k)];
 }
 
@@ -310,7 +312,10 @@ void vh_run(const vh::Case& c, vh::Ctx& ctx) {
             int at = int(uint64_t(arg(3)) % 7);
             if (at == 1) m.set_addr_abs(); else if (at == 2 && mode == 64) m.set_addr_rel();
             if (at == 3) { m.set_segment(x86::fs); r.seg = 5; } else if (at == 4) { m.set_segment(x86::gs); r.seg = 6; }
-            e = xa.mov(x86::ecx, m);
+            int immk = int(uint64_t(arg(3)) / 7 % 3);
+            if (immk == 1) { r.kind = X_ABS_MEM_IMM8; e = xa.add(m, 5); }
+            else if (immk == 2) { r.kind = X_ABS_MEM_IMM32; e = xa.add(m, 0x12345678); }
+            else e = xa.mov(x86::ecx, m);
             break;
           }
         }
